@@ -7,3 +7,27 @@ package irma
 //@ func parseSignerAttributes
 //@   prop C20
 //@   call mapupdate #1 requires !strictMode || schemeManager == "pbdf"
+
+// The strictness the node is configured with reaches the place where signer attributes are filtered:
+// factory -> Verifier.strictMode -> contractVerifier.strictMode -> parseSignerAttributes.
+//@ func getIrmaConfig
+//@   trusted
+//@   benign
+//@ func getIrmaServer
+//@   trusted
+//@   benign
+//@ func NewSignerAndVerifier
+//@   prop C20
+//@   ensures [verifier-is-as-strict-as-the-node] isNilIface(result.2) ==> result.1 != nil && result.1.strictMode == cfg.Production
+
+//@ func (vc.VerifiablePresentation).UnmarshalProofValue
+//@   trusted
+//@   modifies args
+//@ func (Verifier).VerifyVP
+//@   prop C20
+//@   nullable checkTime
+//@   call (*contractVerifier).Parse #1 requires [contract-parsed-as-strictly-as-the-verifier] arg(0).strictMode == v.strictMode
+
+//@ func (*contractVerifier).ParseIrmaContract
+//@   prop C20
+//@   call parseSignerAttributes #1 requires [attributes-filtered-as-strictly-as-the-verifier] arg(0) == cv.strictMode
